@@ -78,6 +78,7 @@ type Point struct {
 	TickAlt    bool // 's': the last alternative is "advance the virtual clock early"
 	Cost       int  // 'c': cost of a non-default answer
 	Desc       string
+	Sig        uint64 // signature of the choice point (kind, alternatives, who is enabled / what is asked)
 }
 
 // AltCost is the deviation cost of choosing alternative alt at p.
@@ -98,7 +99,10 @@ func (p *Point) AltCost(alt int) int {
 }
 
 type Config struct {
-	Prefix     []int
+	Prefix []int
+	// PrefixSigs, when set, are the signatures the points of the prefix had in the execution the
+	// prefix was taken from: any difference while replaying is an engine error (hidden nondeterminism).
+	PrefixSigs []uint64
 	MaxSteps   int   // step horizon (default 20000)
 	Horizon    int64 // virtual-time horizon in ns (default 1h)
 	Trace      bool
@@ -266,16 +270,20 @@ func (r *Ref) Get(name string, reset func()) *Obj {
 
 // ---- choice points ----
 
-func (x *Exec) choose(kind byte, n int, curEnabled, tickAlt bool, cost int, desc string) int {
+func (x *Exec) choose(kind byte, n int, curEnabled, tickAlt bool, cost int, desc string, sig uint64) int {
 	i := len(x.Points)
 	c := 0
+	sig = mix(sig, uint64(kind), uint64(n), shash(desc))
 	if i < len(x.cfg.Prefix) {
 		c = x.cfg.Prefix[i]
 		if c >= n || c < 0 {
 			panic(engineError(fmt.Sprintf("replay divergence at point %d: choice %d of %d (%s)", i, c, n, desc)))
 		}
+		if i < len(x.cfg.PrefixSigs) && x.cfg.PrefixSigs[i] != sig {
+			panic(engineError(fmt.Sprintf("replay divergence at point %d: the choice point differs from the recorded execution (%c %d alternatives %s)", i, kind, n, desc)))
+		}
 	}
-	p := Point{Kind: kind, N: n, Chosen: c, CurEnabled: curEnabled, TickAlt: tickAlt, Cost: cost, Desc: desc}
+	p := Point{Kind: kind, N: n, Chosen: c, CurEnabled: curEnabled, TickAlt: tickAlt, Cost: cost, Desc: desc, Sig: sig}
 	x.Points = append(x.Points, p)
 	x.cost += p.AltCost(c)
 	return c
@@ -290,7 +298,7 @@ func Choose(n int, desc string) int {
 	if n <= 1 || X == nil {
 		return 0
 	}
-	c := X.choose('c', n, false, false, 0, desc)
+	c := X.choose('c', n, false, false, 0, desc, 0)
 	if t := X.cur; t != nil {
 		t.H = mix(t.H, uint64(c)+77)
 	}
@@ -305,7 +313,7 @@ func ChooseDev(n int, desc string) int {
 	if n <= 1 || X == nil {
 		return 0
 	}
-	c := X.choose('c', n, false, false, 1, desc)
+	c := X.choose('c', n, false, false, 1, desc, 0)
 	if t := X.cur; t != nil {
 		t.H = mix(t.H, uint64(c)+99)
 	}
@@ -685,7 +693,11 @@ func Run(cfg Config, body func()) *Exec {
 				}
 				cfg.Visited[k] = rem
 			}
-			idx = x.choose('s', n, curEn, tickAlt, 0, "")
+			var sg uint64
+			for _, t := range en {
+				sg = mix(sg, uint64(t.ID)+1, shash(t.desc))
+			}
+			idx = x.choose('s', n, curEn, tickAlt, 0, "", sg)
 		}
 		if idx == len(en) {
 			x.Ticks++
@@ -735,6 +747,18 @@ func (x *Exec) Choices(n int) []int {
 	c := make([]int, n, n+1)
 	for i := 0; i < n; i++ {
 		c[i] = x.Points[i].Chosen
+	}
+	return c
+}
+
+// Sigs returns the signatures of the first n points.
+func (x *Exec) Sigs(n int) []uint64 {
+	if n > len(x.Points) {
+		n = len(x.Points)
+	}
+	c := make([]uint64, n)
+	for i := 0; i < n; i++ {
+		c[i] = x.Points[i].Sig
 	}
 	return c
 }
